@@ -90,6 +90,15 @@ CHECKS = {
              'encodings, source unchanged, later mutations of either side invisible to the other, same for extend()) is evaluated on real objects.',
         note='The model abstracts object identity to a sharing flag; actual identities are observed by the harness.',
         technique='Lean 4 proof (mutual structural induction) + differential correspondence incl. aliasing graph', ref='5/C11'),
+    'C12': dict(
+        text='Lean 4 theorems about the model of the front-end acceptance (parser checks with prophyc\'s own stiffness kinds): every documented '
+             'rule breaker - optional / fixed / limited array of a dynamic type, any array of an unlimited type, greedy or unlimited member '
+             'not last, sizer not before its array, zero size, duplicate field / discriminator, enumerator or discriminator outside 32 bits - '
+             'is rejected whatever the rest of the struct is; enums are accepted by front-end and Python runtime alike. The model is tied '
+             'to the code by comparing its decision with the real prophyc on valid schemas and on one-rule-breaking edits of them; usability '
+             'of the artifacts (Python import, g++ on generated C++ full and raw sources) is evaluated on the real tool chain.',
+        note='partial: whether g++ / CPython accept a generated file is not modelled, it is decided by running them. `front accepts -> Python runtime accepts` is the stated target theorem. Known finding D40 (reserved identifiers) matched by signature.',
+        technique='Lean 4 proof over the acceptance model + differential correspondence with prophyc, CPython and g++', ref='5/C12'),
     'C13': dict(
         text='Lean 4 theorems for the stages whose logic can hang or leak an exception: the dependency sort gives up after len+1 rotations '
              'per position and reports self references and cycles; include processing reports cycles and missing files; the expression '
